@@ -108,7 +108,7 @@ def _parse_op(rng, cfg, modes, p=None):
     elif r < 0.33:
         op['givecode'] = rng.choice(['bytes', 'str'])      # code= and path= together (no yields inside)
     elif r < 0.39:
-        op['direntry'] = True                              # an os.DirEntry as path
+        op['direntry'] = rng.choice([True, True, 'new'])   # an os.DirEntry as path (kept from an earlier listing, or fresh)
     return op
 
 
